@@ -19,6 +19,8 @@ static const fam_t FAMS[] = {
   {"fault", fam_fault},
   {"io", fam_io},
   {"baddims", fam_baddims},
+  {"threads", fam_threads},
+  {"omp", fam_omp},
   {NULL, NULL}};
 
 static void cfg_event(void) {
